@@ -913,6 +913,22 @@ class RequestHandler(BaseProtocol, Generic[_Request]):
                 status=exc.status, reason=exc.reason, text=exc.text, headers=exc.headers
             )
             prepare_meth = resp.prepare
+        if (
+            isinstance(resp, StreamResponse)
+            and resp.prepared
+            and resp._req is not request
+        ):
+            # Sent already, in answer to another request: preparing it again
+            # writes nothing and this request would stay unanswered.
+            self.log_exception(
+                f"Web-handler returned {resp!r}, which was sent before; "
+                "a response object serves one request"
+            )
+            exc = HTTPInternalServerError()
+            resp = Response(
+                status=exc.status, reason=exc.reason, text=exc.text, headers=exc.headers
+            )
+            prepare_meth = resp.prepare
         try:
             await prepare_meth(request)
             await resp.write_eof()
